@@ -334,6 +334,9 @@ func init() {
 
 	verifComponents["allocstress"] = func(args []string) func(op []string) string {
 		vAllocMemWatch()
+		if atomic.LoadInt32(&vAllocHangs) >= 1 {
+			return func(op []string) string { return "skipped-after-hangs" }
+		}
 		a := NewAllocator(int(vu(args[0])), "verif")
 		dead := false
 		return func(op []string) string {
